@@ -4,9 +4,10 @@ from . import core
 
 RULE = ("real UDP sockets on loopback (DialV2, the library's own transport and 500 ms exponential back-off), a fault-injecting server "
         "in front of the simulated BMC: fault patterns {black hole, reply after the per-attempt timeout, garbage on every attempt, "
-        "temporary code forever, truncated replies} applied from every step k of each blocking call {session-less command, session "
+        "temporary code forever, truncated replies, a flood of bare RMCP ACK datagrams} applied from every step k of each blocking call {session-less command, session "
         "handshake (with discovery), in-session command, session close, SDR repository retrieval}, deadline/timeout ratios "
-        "{0.5, 1, 3.5}, and an already expired context.  predicates: the call returns within deadline + 250 ms (a watchdog turns a "
+        "{0.5, 1, 3.5}, an already expired context, and a call made while an earlier, longer context of a previous call on the "
+        "same connection is still live.  predicates: the call returns within deadline + 250 ms (a watchdog turns a "
         "hang into a violation) with an error when no valid response could be obtained; never success without a valid response; an "
         "expired context returns within 250 ms with an error and at most one datagram.  distinct by (call, fault, step, ratio)")
 
@@ -28,6 +29,12 @@ def run(ch, build):
                     continue
                 for r in rs:
                     reqs.append({"call": call, "fault": fault, "from": frm, "timeout_ms": T, "deadline_ms": int(T * r)})
+        # the peer floods bare RMCP ACKs instead of answering: still bounded by the context
+        reqs.append({"call": call, "fault": "ackflood", "from": 0, "timeout_ms": T, "deadline_ms": int(T * 3.5)})
+        # an earlier call on the same connection had a longer context that is still live: this call is bounded by its own
+        if call in ("sessionless", "session"):
+            for fault in ("busy", "blackhole"):
+                reqs.append({"call": call, "fault": fault, "from": 0, "prior_ms": 3000, "timeout_ms": T, "deadline_ms": int(T * 2.5)})
         reqs.append({"call": call, "fault": "none", "from": 0, "timeout_ms": T, "deadline_ms": 0})
         reqs.append({"call": call, "fault": "none", "from": 0, "timeout_ms": T, "deadline_ms": int(T * 3.5)})
     lines = ["c13 " + json.dumps(r, separators=(",", ":")) for r in reqs]
